@@ -12,9 +12,18 @@ them in minilua and records expected-vs-printed lines. "Interchangeable" is test
 result is compared with the same value written in source (`==` both ways, isJust), and the container itself with
 the literal of the expected state. Python only classifies the differing lines into signatures.
 
+Value semantics ACROSS containers (SyltShare, which extends SyltStd): up to three registers r1, r2, r3; r1 is a list
+literal, `Derive` makes a new register from an existing one (map, filter, copy by for_each + push, dict/set.from_list,
+dict.map, set.map, entries/elements captured by a for_each callback), `Mutate` changes exactly one register; after
+every step ALL registers are observed. A mutation that shows through another register is an `independence` violation.
+The register made or changed by a step is also compared as text (as_str) with the same value built from a literal.
+
+div and floor are read with floor semantics on all operands (div(a, b) = floor(a / b), a in -7..7, b in -3..3 \ {0}).
+
 A transition whose history already left the implementation in a wrong state is not judged (the earlier operation
-is blamed). thorough adds `tlc -simulate` behaviours of 12 steps with larger bounds.
+is blamed). thorough adds `tlc -simulate` behaviours of 12 steps with larger bounds and SyltShare literals over 3 values.
 """
+import concurrent.futures
 import json
 import re
 import os
@@ -27,6 +36,8 @@ ACTIONS = ["ListLit", "Push", "Prepend", "Pop", "Get", "Set", "LenL", "Map", "Fi
            "SetNew", "SetFromList", "SetAdd", "SetContains", "SetRemove", "SetLen",
            "HMin", "HMax", "HAbs", "HClamp", "HSign", "HDiv", "HFloor", "HOrDefault", "HIsJust", "HIsNone"]
 MATH = ("min", "max", "abs", "clamp", "sign", "div", "floor")
+SHARE_ACTIONS = ["SLit", "DMap", "DFilter", "DCopy", "DDictFromList", "DDictMap", "DEntriesOf", "DSetFromList", "DSetMap", "DElemsOf",
+                 "MPush", "MPrepend", "MPop", "MSet", "MUpdate", "MRemoveD", "MAdd", "MRemoveS"]
 
 
 def key(x):
@@ -44,6 +55,8 @@ def collect(r):
 
 
 def container(case):
+    if case["kind"] == "share":
+        return "share-" + case["shape"]
     if case["kind"] != "helper":
         return case["kind"]
     return "math" if case["op"]["op"] in MATH else "maybe"
@@ -80,9 +93,16 @@ def classify(case, res):
     lines = res.get("lines", [])
     bad = [l for l in lines if differs(l)]
     if v == "lua_error":
-        at = (res.get("died_at") or {}).get("cls", "result")
-        what = "state" if at == "state" else "result"
-        return [(signature(case, what, "lua-error"), "the program died with %s" % res.get("status", "?")[:160])], True
+        died = res.get("died_at") or {}
+        at = died.get("cls", "result")
+        if case["kind"] == "share" and at == "print":
+            # as_str of the register is the last line of a transition: everything before it was printed and is judged
+            bad = [l for l in bad if l["cls"] != "print"] + [dict(died, cls="print", got="a Lua error (%s)" % res.get("status", "?")[:120], want="true")]
+        else:
+            what = "state" if at == "state" else "result"
+            return [(signature(case, what, "lua-error"), "the program died with %s" % res.get("status", "?")[:160])], True
+    if case["kind"] == "share":
+        return classify_share(case, bad, lines)
     out = []
     res_bad = [l for l in bad if l["cls"] == "result"]
     int_bad = [l for l in bad if l["cls"] == "interchange" and not l["what"].startswith("container ==")]
@@ -106,9 +126,47 @@ def classify(case, res):
     return out, bool(state_bad or eq_bad)
 
 
+def classify_share(case, bad, lines):
+    """several registers: a wrong observation of the register the step names is `state`, of any OTHER register `independence`"""
+    target = case["op"]["on"]
+    how = lambda reg: case["regs"][reg - 1]["how"]
+    step = share_optext(case["op"])
+    out = []
+    res_bad = [l for l in bad if l["cls"] == "result"]
+    int_bad = [l for l in bad if l["cls"] == "interchange" and l.get("reg", 0) == 0]
+    obs_bad = [l for l in bad if l["cls"] in ("state", "interchange") and l.get("reg", 0) > 0]
+    own_bad = [l for l in obs_bad if l["reg"] == target]
+    other_bad = [l for l in obs_bad if l["reg"] != target]
+    print_bad = [l for l in bad if l["cls"] == "print"]
+    if res_bad:
+        l = res_bad[0]
+        out.append((signature(case, "result"), "%s printed %r, the model says %r" % (l["what"], l["got"], l["want"])))
+    elif int_bad:
+        l = int_bad[0]
+        out.append((signature(case, "interchange"), "`%s` is %s inside Sylt although the printed result is the expected one" % (l["what"], l["got"])))
+    for reg in sorted({l["reg"] for l in other_bad}):
+        l = [x for x in other_bad if x["reg"] == reg][0]
+        out.append((signature(case, "independence", "changed-" + how(reg)),
+                    "after `%s` the OTHER container r%d (made by %s) changed: %s printed %r, the model (containers are values) says %r"
+                    % (step, reg, how(reg), l["what"], l["got"], l["want"])))
+    if own_bad:
+        l = own_bad[0]
+        what = "state" if l["cls"] == "state" else "interchange"
+        out.append((signature(case, what, "eq-literal" if what == "interchange" else None),
+                    "after `%s`: %s printed %r, the model says %r" % (step, l["what"], l["got"], l["want"])))
+    if print_bad:
+        l = print_bad[0]
+        out.append((signature(case, "print", "made-by-" + how(l["reg"])),
+                    "`%s` gives %s: the container r%d made by %s has the expected len and members but not the text of the same value built from a literal"
+                    % (l["what"], l["got"], l["reg"], how(l["reg"]))))
+    if not out and len(lines) == 0:
+        out.append((signature(case, "result", "no-output"), "nothing was printed"))
+    return out, bool(obs_bad)
+
+
 def hist_keys(case):
     """keys of all non-empty prefixes of hist, and of hist + [op]"""
-    base = case["kind"] + "|" + case["ty"] + "|"
+    base = case["kind"] + "|" + case["ty"] + "|" + case.get("shape", "") + "|"
     ops = [key(o) for o in case["hist"]]
     pre = [base + ";".join(ops[:n]) for n in range(1, len(ops) + 1)]
     return pre, base + ";".join(ops + [key(case["op"])])
@@ -134,19 +192,32 @@ def show(v):
     return k or "?"
 
 
+def share_optext(o):
+    args = ", ".join(show(a) for a in o["a"])
+    if o["op"] == "lit":
+        return "r1 := %s" % args
+    if o["from"] > 0:
+        return "r%d := %s(%s) of r%d" % (o["on"], o["op"], args, o["from"])
+    return "%s(%s) on r%d" % (o["op"], args, o["on"])
+
+
 def short(case):
     def optext(o):
+        if "on" in o:
+            return share_optext(o)
         return "%s(%s)" % (o["op"], ", ".join(show(a) for a in o["a"]))
+    def asktext(a):
+        return ("r%d." % a["reg"] if "reg" in a else "") + "%s(%s)" % (a["op"]["op"], ", ".join(show(x) for x in a["op"]["a"]))
     return {"container": container(case), "element_type": case["ty"], "history": [optext(o) for o in case["hist"]],
             "operation": optext(case["op"]), "contract_case": case.get("arg", "-"), "expected_result": show(case["res"]),
-            "expected_state_observation": ["%s = %s" % (optext(a["op"]), show(a["res"])) for a in case["obs"]]}
+            "expected_state_observation": ["%s = %s" % (asktext(a), show(a["res"])) for a in case["obs"]]}
 
 
-def replay_cases(wd, cases, name, batch=40):
+def replay_cases(wd, cases, name, batch=40, env=None):
     cf = os.path.join(wd, name + "-cases.ndjson")
     rf = os.path.join(wd, name + "-results.ndjson")
     vlib.write_ndjson(cf, cases)
-    vlib.harness("c18", ["replay", cf, rf, batch])
+    vlib.harness("c18", ["replay", cf, rf, batch], env=env)
     results = vlib.read_ndjson(rf)
     summary = results.pop()
     if not summary.get("summary") or len(results) != len(cases):
@@ -214,12 +285,58 @@ def negative_control(wd, cases, results):
     return len(neg)
 
 
+def share_guards(cases):
+    """vacuity: the situations in which sharing could show are really in the universe"""
+    is_mut = lambda c: c["op"]["op"] != "lit" and c["op"]["from"] == 0
+    keeps_all = {hist_keys(c)[1] for c in cases if c["op"]["op"] == "filter" and c["arg"].startswith("keeps-all")}
+    n = {"mutation with >= 2 registers": 0, "mutation after a filter that kept everything": 0,
+         "update of a present key with two dicts from one list": 0, "update of a present key after entries were captured": 0,
+         "mutation of a list a dict/set was made from": 0, "mutation with a register made by copy/map": 0}
+    for c in cases:
+        if not is_mut(c) or len(c["regs"]) < 2:
+            continue
+        hows = [g["how"] for g in c["regs"]]
+        n["mutation with >= 2 registers"] += 1
+        if any(k in keeps_all for k in hist_keys(c)[0]):
+            n["mutation after a filter that kept everything"] += 1
+        if c["op"]["op"] == "update" and c["arg"].startswith("present"):
+            if hows.count("dict.from_list") == 2:
+                n["update of a present key with two dicts from one list"] += 1
+            if "entries" in hows:
+                n["update of a present key after entries were captured"] += 1
+        if c["regs"][c["op"]["on"] - 1]["how"] == "lit" and ("dict.from_list" in hows or "set.from_list" in hows):
+            n["mutation of a list a dict/set was made from"] += 1
+        if "copy" in hows or "map" in hows:
+            n["mutation with a register made by copy/map"] += 1
+    for k, v in n.items():
+        if v < 10:
+            vlib.tool_error("vacuity (SyltShare): only %d transitions are a %s" % (v, k))
+    return n
+
+
+def negative_control_share(wd, cases):
+    """stub the implementation: `copy` (for_each + push into a new list) is rendered as a plain alias r2 = r1.
+    Every push / prepend on either list right after such a derivation must then be reported as an independence violation."""
+    neg = [c for c in cases if len(c["hist"]) == 2 and c["hist"][1]["op"] == "copy" and c["op"]["op"] in ("push", "prepend")]
+    if len(neg) < 20:
+        vlib.tool_error("negative control (SyltShare): only %d stubbable transitions" % len(neg))
+    res, _ = replay_cases(wd, neg, "neg-share", env={"C18_STUB": "alias"})
+    accepted = 0
+    for c, r in zip(neg, res):
+        sigs, _ = classify(c, r)
+        if not any("|independence|" in s_ for s_, _ in sigs):
+            accepted += 1
+    if accepted:
+        vlib.tool_error("negative control (SyltShare): %d of %d aliasing stubs were accepted" % (accepted, len(neg)))
+    return len(neg)
+
+
 def run(ctx):
     tier = ctx.tier
     wd = vlib.workdir(PID)
     ev = vlib.Evidence(PID, tier, "model_checking")
     verdicts = vlib.Verdicts(PID)
-    vlib.build_harness()
+    vlib.build_harness(["c18"])
     stats = {}
 
     if ctx.replay:
@@ -235,25 +352,53 @@ def run(ctx):
         ev.write()
         return verdicts.finish()
 
-    # 1. every transition of the bounded models (4 instantiations x list/dict/set, and the helper universe)
-    r = vlib.tlc("MC_Std", wd=wd, env={"MAXLEN": 3, "BIG": 0}, timeout=900, workers=8)
+    # 1. every transition of the bounded models (4 instantiations x list/dict/set, and the helper universe), and
+    #    every transition of the several-register model SyltShare (value semantics across containers); the two TLC runs overlap
+    #    (SyltShare bounds: steps after the literal for shape list / shapes dict and set; thorough writes literals over 3 values instead of 2)
+    share_env = {"SHARE_STEPS": 3, "SHARE_STEPS_DS": 4, "SHARE_REGS": 3, "SHARE_MUT": 2, "SHARE_VALS": 3 if tier == "thorough" else 2, "SHARE_LEN": 3}
+    with concurrent.futures.ThreadPoolExecutor(2) as pool:
+        f1 = pool.submit(vlib.tlc, "MC_Std", wd=wd, env={"MAXLEN": 3, "BIG": 0}, timeout=900, workers=4)
+        f2 = pool.submit(vlib.tlc, "MC_Share", wd=wd, env=share_env, timeout=1500, workers=4)
+        r, rsh = f1.result(), f2.result()
     vlib.require_tlc_ok(r, "SyltStd container and helper models")
+    vlib.require_tlc_ok(rsh, "SyltShare value semantics across containers")
     for act in ACTIONS:
         if r.coverage.get(act, (0, 0))[1] == 0:
             vlib.tool_error("vacuity: spec action %s never taken" % act)
+    for act in SHARE_ACTIONS:
+        if rsh.coverage.get(act, (0, 0))[1] == 0:
+            vlib.tool_error("vacuity: spec action %s never taken" % act)
     if r.coverage.get("TransitionSane", (0, 0))[1] < r.generated - 20:
         vlib.tool_error("vacuity: TransitionSane was evaluated on %s of %d transitions" % (r.coverage.get("TransitionSane"), r.generated))
+    if rsh.coverage.get("ShareSane", (0, 0))[1] < rsh.generated - 20:
+        vlib.tool_error("vacuity: ShareSane was evaluated on %s of %d transitions" % (rsh.coverage.get("ShareSane"), rsh.generated))
     cases = collect(r)
     if len(cases) < 5000:
         vlib.tool_error("vacuity: only %d transitions" % len(cases))
-    ev.set(states=r.distinct, transitions=r.generated, tlc_wall_s=round(r.wall_s, 1),
-           spec_invariants=["TypeOK", "TransitionSane (action constraint, every transition)"],
-           actions={a: r.coverage[a][1] for a in ACTIONS})
+    divs = [c for c in cases if c["op"]["op"] == "div"]
+    if len([c for c in divs if c["arg"] == "inexact-signs-differ"]) < 18 or len(divs) != 90:
+        vlib.tool_error("vacuity: div universe has %d cases" % len(divs))
+    if len([c for c in cases if c["op"]["op"] == "floor" and c["arg"] == "negative-fraction"]) < 2:
+        vlib.tool_error("vacuity: floor is not exercised on negative fractions")
+    share = collect(rsh)
+    if len(share) < 10000:
+        vlib.tool_error("vacuity: only %d SyltShare transitions" % len(share))
+    guards = share_guards(share)
+    ev.set(states=r.distinct + rsh.distinct, transitions=r.generated + rsh.generated, tlc_wall_s=round(max(r.wall_s, rsh.wall_s), 1),
+           spec_invariants=["TypeOK", "TransitionSane (action constraint, every transition)",
+                            "ShareTypeOK", "ShareSane (action constraint, every transition: a step changes only the register it names)"],
+           actions=dict({a: r.coverage[a][1] for a in ACTIONS}, **{a: rsh.coverage[a][1] for a in SHARE_ACTIONS}))
     results, summary = replay_cases(wd, cases, "graph")
     judge_all(cases, results, verdicts, stats)
     n_neg = negative_control(wd, cases, results)
     universes = {"graph": {"transitions": len(cases), "programs": summary["programs"], "batches": summary["batches"],
                            "rejected_batches": summary["rejected_batches"]}}
+    shres, shsum = replay_cases(wd, share, "share")
+    judge_all(share, shres, verdicts, stats)
+    n_neg += negative_control_share(wd, share)
+    universes["share"] = {"transitions": len(share), "programs": shsum["programs"], "batches": shsum["batches"],
+                          "rejected_batches": shsum["rejected_batches"], "bounds": share_env, "situations": guards}
+    cases = cases + share
 
     # 2. thorough: random behaviours above the exhaustive bound
     if tier == "thorough":
@@ -284,19 +429,26 @@ def run(ctx):
 
     # distinct transitions of the models: the same (pre-state, operation) reached through different histories counts once
     distinct = len({(c["kind"], c["ty"], c.get("pre"), key(c["op"])) for c in cases})
-    pick = [cases[i] for i in (len(cases) // 7, len(cases) // 3, len(cases) // 2, len(cases) - 40)]
+    graph_n = universes["graph"]["transitions"]
+    pick = [cases[i] for i in (graph_n // 7, graph_n // 2, graph_n + len(share) // 3, graph_n + len(share) - 40)]
+    pick += [c for c in cases[:graph_n] if c["op"]["op"] == "div" and c["arg"] == "inexact-signs-differ"][:1]
+    pick += [c for c in share if c["op"]["op"] == "update" and c["arg"].startswith("present") and len(c["regs"]) == 3][:1]
     ev.set(traces_validated_against_impl=stats.get("judged", 0), evaluations=len(cases), distinct_nontrivial=distinct,
            universes=universes, verdict_counts={k: v for k, v in stats.items() if isinstance(v, int)},
            transitions_per_operation=per_op, violation_signatures=stats.get("signatures", {}),
            rejected_by_compiler=rejected, rejected_examples=stats.get("rejected_examples", []),
            negative_controls_rejected=n_neg, exhaustive=True, known_findings_hit=verdicts.known_hits,
            rule="every transition of the list/dict/set models (length/keys <= 3; element types int, str, (int, int), (str, str)) "
-                "and every helper application over ints -3..3 and half-steps in [-2, 2]; every transition applies one library operation to a "
+                "and every helper application over ints -3..3 and half-steps in [-2, 2] (div: a in -7..7, b in -3..3 without 0, floor semantics); "
+                "every transition of the several-register model SyltShare (r1 a list literal of length <= 2 over 2 (thorough 3) values of int / (int, int), "
+                "<= 3 registers, <= 2 mutations, <= 3 steps after the literal for lists and <= 4 for dicts and sets; all registers observed after "
+                "every step); every transition applies one library operation to a "
                 "container rebuilt by its history and observes result and whole state, so all are non-trivial; distinct = distinct "
                 "(instantiation, model pre-state, operation with arguments), histories ignored",
            samples=[short(c) for c in pick])
     ev.assume("minilua stands in for Lua 5.3 (no Lua interpreter exists in the sandbox); float results are compared as Lua 5.3 prints them",
-              "div and floor are only exercised where rounding down and rounding towards zero agree and the divisor is not 0",
+              "div and floor are read with floor semantics (div(a, b) = floor(a / b)) on negative operands too; div(a, 0) is not specified and not exercised",
+              "value semantics across containers is explored for element/key types int and (int, int) only; lists of lists (whose elements are legitimately shared references) are not in the universe",
               "dict / set iteration order is never observed (containers are observed through len, get, contains and ==)",
               "a transition whose history already left the implementation in a wrong state is not judged (the earlier operation is reported)")
     rc = verdicts.finish()
